@@ -26,7 +26,7 @@ for sid, m in metas.items():
     rows.append("| %s | %s | %s |" % (sid, desc[sid]["what"], ("**%s**" % ", ".join(det)) if det else "not detected — " + (desc[sid]["why_not"] or "behavioural")))
 cnt = {}
 for sid, m in metas.items():
-    rnd = {"A": 1, "B": 1, "C": 2, "D": 2, "E": 3, "F": 3}[sid[-1]]
+    rnd = {"A": 1, "B": 1, "C": 2, "D": 2, "E": 3, "F": 3, "G": 4, "H": 4}[sid[-1]]
     c = cnt.setdefault(rnd, [0, 0]); c[1] += 1; c[0] += bool(m.get("detected_by"))
 p = os.path.join(V, "DESIGN.md")
 s = open(p).read()
@@ -34,8 +34,8 @@ a = s.index("| Change | What it does | Detected by (rule) / why not |")
 b = s.index("\n\n", a)
 s = s[:a] + "| Change | What it does | Detected by (rule) / why not |\n|--------|--------------|------------------------------|\n" + "\n".join(rows) + s[b:]
 tot = sum(c[0] for c in cnt.values()); n = sum(c[1] for c in cnt.values())
-line = "* **Today** (all rules of section 12.5): round 1: %d of %d; round 2: %d of %d; round 3: %d of %d; together %d of %d. " \
-       "Must-fire (change, rule) pairs in the self-test: %d." % (cnt[1][0], cnt[1][1], cnt[2][0], cnt[2][1], cnt[3][0], cnt[3][1], tot, n, len(out))
+line = "* **Today** (all rules of section 12.5): " + "; ".join("round %d: %d of %d" % (r, cnt[r][0], cnt[r][1]) for r in sorted(cnt)) + \
+       "; together %d of %d. Must-fire (change, rule) pairs in the self-test: %d." % (tot, n, len(out))
 if "* **Today** (all rules" in s:
     s = re.sub(r"\* \*\*Today\*\* \(all rules[^\n]*", line, s)
 else:
